@@ -295,11 +295,18 @@ func (d *lmtpDelivery) BodyNonAtomic(ctx context.Context, sc module.StatusCollec
 		for _, rcpt := range d.rcpts {
 			sc.SetStatus(rcpt, modErr)
 		}
+		return
 	}
 	defer r.Close()
 
 	rcptIndx := 0
 	err = d.conn.LMTPData(ctx, header, r, func(rcpt string, err *smtp.SMTPError) {
+		// Replies come in the order of accepted RCPT TO commands. The
+		// address in the callback is the one sent to the server, it may
+		// differ from the one we were given (converted to A-labels).
+		if rcptIndx < len(d.rcpts) {
+			rcpt = d.rcpts[rcptIndx]
+		}
 		if err == nil {
 			sc.SetStatus(rcpt, nil)
 		} else {
